@@ -253,6 +253,11 @@ pub struct StreamOpts {
     pub upsampling: u32,
     /// encoded ICC stream (output of `icc::write_icc_stream`) to embed; sets want_icc
     pub icc_stream: Option<BitWriter>,
+    /// spline dictionary (output of `patches::write_splines`) and the kSplines frame flag
+    pub splines: Option<BitWriter>,
+    /// write a Modular LF frame (lf_level 1, 1/8 size) first and let the VarDCT frame take its LF from it
+    /// (flag kUseLfFrame; the LF coefficients are then not coded in the VarDCT frame)
+    pub lf_frame: bool,
 }
 
 impl JpegSpec {
@@ -901,7 +906,10 @@ impl JpegSpec {
         let zz = zigzag();
         let (bw, bh) = (self.blocks_w(), self.blocks_h());
         let nb = bw * bh;
-        assert!(self.w <= 256 && self.h <= 256, "single group only");
+        assert!(self.w <= 2048 && self.h <= 2048, "single LF group only");
+        // groups of 256x256 samples = 32x32 blocks
+        let (gcols, grows) = ((bw + 31) / 32, (bh + 31) / 32);
+        let num_groups = gcols * grows;
         let up = o.upsampling.max(1);
         assert!(up == 1 || canvas.is_none(), "upsampling is only written for uncropped frames");
         let (cw, ch) = canvas.map(|c| (c.0, c.1)).unwrap_or((self.w as u32 * up, self.h as u32 * up));
@@ -920,7 +928,8 @@ impl JpegSpec {
             fh.height = self.h as u32;
         }
         fh.encoding = ENC_VARDCT;
-        fh.flags = FLAG_SKIP_ADAPTIVE_LF_SMOOTHING | if o.noise.is_some() { FLAG_NOISE } else { 0 };
+        fh.flags = FLAG_SKIP_ADAPTIVE_LF_SMOOTHING | if o.noise.is_some() { FLAG_NOISE } else { 0 } | if o.lf_frame { FLAG_USE_LF_FRAME } else { 0 } | if o.splines.is_some() { FLAG_SPLINES } else { 0 };
+        assert!(!o.lf_frame || (self.samp.is_empty() && up == 1 && canvas.is_none()), "LF frame: plain frames only");
         fh.do_ycbcr = ycbcr;
         fh.upsampling = up;
         if !self.samp.is_empty() {
@@ -1005,6 +1014,9 @@ impl JpegSpec {
 
         let mut s = BitWriter::new();
         // LfGlobal
+        if let Some(sp) = &o.splines {
+            s.append(sp);
+        }
         if let Some(n) = &o.noise {
             for &v in n {
                 s.write(10, v as u64);
@@ -1025,15 +1037,24 @@ impl JpegSpec {
         tcode.write_header(&mut s);
         tcode.write_symbols(&mut s, &tree_syms);
         mcode.write_header(&mut s);
-        // LfGroup: LfCoeff
-        s.write(2, 0);
-        mhdr.write(&mut s);
-        mcode.write_symbols(&mut s, &lf_syms);
+        let mut sections: Vec<BitWriter> = vec![];
+        if num_groups > 1 {
+            sections.push(std::mem::replace(&mut s, BitWriter::new()));
+        }
+        // LfGroup: LfCoeff (absent when the LF comes from an LF frame)
+        if !o.lf_frame {
+            s.write(2, 0);
+            mhdr.write(&mut s);
+            mcode.write_symbols(&mut s, &lf_syms);
+        }
         // HfMetadata
         let nbits = if nb <= 1 { 0 } else { 32 - ((nb - 1) as u32).leading_zeros() };
         s.write(nbits, (nb - 1) as u64);
         mhdr.write(&mut s);
         mcode.write_symbols(&mut s, &meta_syms);
+        if num_groups > 1 {
+            sections.push(std::mem::replace(&mut s, BitWriter::new()));
+        }
         // HfGlobal: dequant matrices
         s.bool(false);
         s.write(3, 7); // DCT8: RAW
@@ -1043,14 +1064,34 @@ impl JpegSpec {
         for _ in 0..16 {
             s.write(3, 0);
         }
-        // num_hf_presets: ceil(log2(num_groups)) = 0 bits
+        // num_hf_presets - 1 in ceil(log2(num_groups)) bits: one preset
+        let preset_bits = if num_groups <= 1 { 0 } else { 32 - ((num_groups - 1) as u32).leading_zeros() };
+        s.write(preset_bits, 0);
         // HfPass: used_orders = 0
         s.u32([D::Val(0x5f), D::Val(0x13), D::Val(0), D::Bits(13)], 0);
         // HF coefficient tokens: every context goes to cluster 0
         let nctx = 495 * 15;
         let mut hf_syms: Vec<Sym> = vec![];
-        for blk in 0..nb {
+        // blocks group by group (raster inside each 32x32-block group); with one group this is plain raster order
+        let mut group_sym_ranges: Vec<(usize, usize)> = vec![];
+        let block_order: Vec<usize> = (0..num_groups)
+            .flat_map(|g| {
+                let (gx, gy) = (g % gcols, g / gcols);
+                let (x1, y1) = (((gx + 1) * 32).min(bw), ((gy + 1) * 32).min(bh));
+                (gy * 32..y1).flat_map(move |y| (gx * 32..x1).map(move |x| y * bw + x)).collect::<Vec<_>>()
+            })
+            .collect();
+        let mut cur_group = usize::MAX;
+        for blk in block_order {
             let (bx, by) = (blk % bw, blk / bw);
+            let g = (by / 32) * gcols + bx / 32;
+            if g != cur_group {
+                if let Some(last) = group_sym_ranges.last_mut() {
+                    last.1 = hf_syms.len();
+                }
+                group_sym_ranges.push((hf_syms.len(), hf_syms.len()));
+                cur_group = g;
+            }
             for ch in 0..3usize {
                 // channel order Y, X, B
                 let comp = comp_of_channel(ch);
@@ -1091,12 +1132,41 @@ impl JpegSpec {
         let hopts = CodeOpts { use_prefix: !ans, cluster_map: Some(vec![0; nctx]), cfg: Some(HybridCfg::new(4, 2, 0)), ..Default::default() };
         let hcode = CodeSpec::build(nctx, &hf_syms, &hopts);
         hcode.write_header(&mut s);
-        // PassGroup
-        hcode.write_symbols(&mut s, &hf_syms);
-        let section = s.finish();
-        write_toc(&mut fw, &Sel::default(), &[section.len() as u32], None, &CodeOpts::default());
+        if let Some(last) = group_sym_ranges.last_mut() {
+            last.1 = hf_syms.len();
+        }
+        if num_groups == 1 {
+            // PassGroup in the same (only) section
+            hcode.write_symbols(&mut s, &hf_syms);
+            sections.push(s);
+        } else {
+            sections.push(s);
+            // one PassGroup section per group (hf preset selector: 0 bits for one preset)
+            let mut states: Vec<BitWriter> = vec![];
+            for &(a, b) in &group_sym_ranges {
+                let mut g = BitWriter::new();
+                hcode.write_symbols(&mut g, &hf_syms[a..b]);
+                states.push(g);
+            }
+            sections.extend(states);
+        }
+        let sections: Vec<Vec<u8>> = sections.into_iter().map(|w| w.finish()).collect();
+        let sizes: Vec<u32> = sections.iter().map(|b| b.len() as u32).collect();
+        write_toc(&mut fw, &Sel::default(), &sizes, None, &CodeOpts::default());
+        if o.lf_frame {
+            // the LF frame: Modular, three channels of ceil(w/8) x ceil(h/8) samples derived from the DC values
+            let mut lfh = FrameHeader::modular_lossless(&img);
+            lfh.frame_type = FT_LF;
+            lfh.lf_level = 1;
+            lfh.is_last = false;
+            let chans: Vec<Channel> = (0..3).map(|ch| Channel::from_fn(bw, bh, |x, y| (comp_of_channel(ch).map(|c| self.coef[c][y * bw + x][0]).unwrap_or(0) / 8 + 128).clamp(0, 255))).collect();
+            let spec = crate::frame::ModularFrameSpec::new(lfh, chans);
+            out.extend_from_slice(&crate::frame::write_modular_frame(&img, &spec).bytes);
+        }
         out.extend_from_slice(&fw.finish());
-        out.extend_from_slice(&section);
+        for sec in &sections {
+            out.extend_from_slice(sec);
+        }
         out
     }
 
